@@ -64,6 +64,22 @@ Fixpoint pct_decode (s : str) : option bytes :=
 
 Definition of_opt {A} (e : err) (o : option A) : res A := match o with Some a => Ok a | None => Err e end.
 
+(* the part of from_str that runs when exactly one '=' is present: val = typ_str '=' rest *)
+Definition comp_from_typed (typ_str rest : str) : res bytes :=
+  if str_eqb typ_str s_sha256digest then
+    do b <- of_opt EValue (hex_parse rest) ;; comp_from_bytes b (Z.of_N TYPE_IMPLICIT_SHA256)
+  else if str_eqb typ_str s_params_sha256 then
+    do b <- of_opt EValue (hex_parse rest) ;; comp_from_bytes b (Z.of_N TYPE_PARAMETERS_SHA256)
+  else
+    match alt_by_str alt_uri typ_str with
+    | Some t => do n <- of_opt EValue (py_int rest) ;; comp_from_number n t
+    | None =>
+        do typ <- of_opt EValue (py_int typ_str) ;;
+        if (typ <=? 0)%Z || (Z.of_N MAX_COMPONENT_TYPE <? typ)%Z then Err EValue
+        else do body <- of_opt EValue (pct_decode rest) ;;
+             Ok (comp_enc (Z.to_N typ) body)
+    end.
+
 (* Component.from_str(val) *)
 Definition comp_from_str (val : str) : res bytes :=
   match val with
@@ -73,24 +89,8 @@ Definition comp_from_str (val : str) : res bytes :=
       else if Nat.ltb 1 (count_eq 61 val) then Err EValue
       else
         match index_of 61 val with
-        | Some off =>
-            let typ_str := firstn off val in
-            let rest := skipn (S off) val in
-            if str_eqb typ_str s_sha256digest then
-              do b <- of_opt EValue (hex_parse rest) ;; comp_from_bytes b (Z.of_N TYPE_IMPLICIT_SHA256)
-            else if str_eqb typ_str s_params_sha256 then
-              do b <- of_opt EValue (hex_parse rest) ;; comp_from_bytes b (Z.of_N TYPE_PARAMETERS_SHA256)
-            else
-              match alt_by_str alt_uri typ_str with
-              | Some t => do n <- of_opt EValue (py_int rest) ;; comp_from_number n t
-              | None =>
-                  do typ <- of_opt EValue (py_int typ_str) ;;
-                  if (typ <=? 0)%Z || (Z.of_N MAX_COMPONENT_TYPE <? typ)%Z then Err EValue
-                  else do body <- of_opt EValue (pct_decode rest) ;;
-                       Ok (comp_enc (Z.to_N typ) body)
-              end
-        | None =>
-            do body <- of_opt EValue (pct_decode val) ;; Ok (comp_enc TYPE_GENERIC body)
+        | Some off => comp_from_typed (firstn off val) (skipn (S off) val)
+        | None => do body <- of_opt EValue (pct_decode val) ;; Ok (comp_enc TYPE_GENERIC body)
         end
   end.
 
@@ -174,7 +174,7 @@ Definition name_encode (n : name) : bytes :=
 (* Name.decode(buf, offset) with [w] = buf[offset:]; returns components and bytes consumed.
    The loop runs while the remaining declared length is positive; a component that overruns
    makes the remaining length negative and ends the loop (as in the Python). *)
-Fixpoint name_decode_loop (fuel : nat) (w : bytes) (remaining : Z) (acc : name) (used : nat) : res (name * nat) :=
+Fixpoint name_decode_loop (fuel : nat) (w : bytes) (remaining : Z) (acc : name) (used : N) : res (name * N) :=
   if (remaining <=? 0)%Z then Ok (rev acc, used)
   else match fuel with
        | O => Err EFuel
@@ -183,18 +183,20 @@ Fixpoint name_decode_loop (fuel : nat) (w : bytes) (remaining : Z) (acc : name) 
            let sz1 := snd tp in
            do lp <- tl_dec (skipn sz1 w) ;;
            let '(len, sz2) := lp in
-           let tot := (sz1 + sz2 + N.to_nat len)%nat in
-           name_decode_loop f (skipn tot w) (remaining - Z.of_nat tot)%Z (firstn tot w :: acc) (used + tot)%nat
+           let tot := N.of_nat (sz1 + sz2) + len in
+           (* slices truncate: never convert an attacker-chosen length to nat *)
+           let k := N.to_nat (N.min tot (N.of_nat (length w))) in
+           name_decode_loop f (skipn k w) (remaining - Z.of_N tot)%Z (firstn k w :: acc) (used + tot)
        end.
 
-Definition name_decode (w : bytes) : res (name * nat) :=
+Definition name_decode (w : bytes) : res (name * N) :=
   do tp <- tl_dec w ;;
   let '(typ, sz1) := tp in
   if negb (typ =? TYPE_NAME) then Err EValue
   else do lp <- tl_dec (skipn sz1 w) ;;
        let '(len, sz2) := lp in
        if N.of_nat (length w - (sz1 + sz2)) <? len then Err EIndex
-       else name_decode_loop (S (length w)) (skipn (sz1 + sz2) w) (Z.of_N len) [] (sz1 + sz2)%nat.
+       else name_decode_loop (S (length w)) (skipn (sz1 + sz2) w) (Z.of_N len) [] (N.of_nat (sz1 + sz2)).
 
 Definition name_from_bytes (w : bytes) : res name := do r <- name_decode w ;; Ok (fst r).
 
